@@ -375,3 +375,55 @@ def c03(run):
     run.probe("nul-overread", nul_probe)
     run.assumptions += ["tokens longer than the buffer: REJECT scanners and user-owned yy_scan_buffer buffers are only given tokens that fit (as the property states)",
                         "%option always-interactive (line-at-a-time getc loop) is not held to the no-over-read clause"]
+
+
+@check("C13")
+def c13(run):
+    fd = build.build_flex()
+    rng = random.Random(run.seed)
+    q = run.tier == "quick"
+    srcs = fam(run, profiles=("lit", "ccl", "nul", "sc", "trail", "mix"), core=2 if q else 8, rnd=24)
+    # (i) every index the matching loop can form, in every table representation (IndexSafe of MC_Product)
+    cfgs = [{"tbl": t, "heap": True, "yymore": True} for t in ("", "-C", "-Cf", "-CF", "-Cfe", "-Ca")] + \
+           [{"reject": True, "heap": True, "yymore": True, "array": True}, {"flavour": "r", "heap": True, "yymore": True, "userwrap": True},
+            {"flavour": "r", "heap": True, "reject": True, "array": True}]
+    cases = units.product_unit(run, fd, srcs, cfgs, tag="product", san=True)
+    ok = [c for c in cases if c.status == "ok"]
+    # (ii) API histories under ASan/UBSan with the allocation ledger: edits, stack growth, buffers, destroy and reuse
+    def jf(c, job):
+        r = random.Random(hash((c.id, bytes(job["input"]))) & 0xffffffff)
+        if r.random() < 0.5:
+            job = buffer_jobs("buf")(c, job)
+        if r.random() < 0.2:
+            job["ops"] = stack_scripts(r, c, 1)[0]
+        return job
+    units.trace_unit(run, ok, rng, per_case=10 if q else 40, tag="histories", job_filter=jf, bufsizes=(0, 1, 2, 5, 16), maxops=40)
+    # (iii) %array capacity: text accumulated with yymore() up to and beyond YYLMAX must end in the documented fatal error
+    P = rulesets.P
+    big = rulesets.ruleset([rulesets.rule(P.plus(P.ccl([P.cr(97, 122)]))), rulesets.rule(P.chr_(10))], name="array-capacity")
+    bc = units.product_unit(run, fd, [big], [{"array": True, "yymore": True, "heap": True, "yylmax": 40},
+                                             {"array": True, "yymore": True, "flavour": "r", "yylmax": 40},
+                                             {"array": True, "yymore": True, "reject": True, "yylmax": 40}], tag="bigp", san=True)
+    def bigjobs(c, job):
+        k = len(job["input"]) % 7          # below, at and beyond the capacity
+        job["input"] = (b"abcde" + b"\n") * (4 + k) + b"ab\n" + b"a" * (30 + k) + b"\n"
+        job["ops"] = [("M", 0), ("-", 0)] * 30
+        job["sched"] = [7]; job["bufsize"] = 0; job["initsc"] = 0
+        return job
+    units.trace_unit(run, [c for c in bc if c.status == "ok"], rng, per_case=14, tag="capacity", job_filter=bigjobs, scripts=False)
+    wd = os.path.join(run.work, "histories")
+    units.validate_heap(run, [(c, os.path.join(wd, "t-%s.ndjson.heap" % c.id)) for c in ok], "ledger")
+    run.assumptions += ["undefined behaviour outside the modelled table/buffer indices and the ledger is observed by the ASan/UBSan monitor attached to every run (reported as event Crash, which no specification action produces)"]
+
+
+@check("C14", "fault_enumeration")
+def c14(run):
+    fd = build.build_flex()
+    rng = random.Random(run.seed)
+    q = run.tier == "quick"
+    srcs = fam(run, profiles=("lit", "sc", "trail", "mix"), core=1, rnd=6 if q else 40, hand=False) + rulesets.handwritten()[:3]
+    cfgs = [{"heap": True, "yymore": True, "userread": False}, {"heap": True, "reject": True, "userread": False, "array": True},
+            {"heap": True, "flavour": "r", "userwrap": True, "userread": False}, {"heap": True, "tbl": "-Cf", "userread": False}]
+    cases = units.product_unit(run, fd, srcs, cfgs, tag="product", san=True)
+    units.fault_unit(run, [c for c in cases if c.status == "ok"], rng, per_case=2 if q else 6, max_points=30 if q else 200)
+    run.assumptions += ["one fault per run (single-fault enumeration over every allocation index / read index of each scenario, capped per scenario in the quick tier)"]
